@@ -54,6 +54,10 @@ def gen_case(rng, size=1.0):
                 else:
                     a = rng.randrange(2); h0.append(a); h1.append(a)
             haps[s][name] = [h0, h1]
+    extra = gen_extra(rng, samples, contigs, variants) if rng.random() < 0.5 else {}
+    # unbalanced coverage between the haplotypes (3:1 … 4:0): a mis-typed allele then flips the consensus instead of
+    # merely leaving the variant unphased
+    hap_bias = {s: (rng.choice([0.0, 0.1, 0.25, 0.75, 0.9, 1.0]) if rng.random() < 0.5 else 0.5) for s in samples}
     read_groups = [[f"rg_{s}", s] for s in samples]
     alns = []
     rid = 0
@@ -74,7 +78,7 @@ def gen_case(rng, size=1.0):
             n_reads = max(2, int(depth * L / 250))
             for _ in range(n_reads):
                 rid += 1
-                h = rng.randrange(2)
+                h = 0 if rng.random() < hap_bias[s] else 1
                 alleles = list(haps[s][name][h])
                 rl = rng.randrange(90, 420)
                 st = rng.randrange(0, max(1, L - rl))
@@ -167,7 +171,41 @@ def gen_case(rng, size=1.0):
         for c in contigs:
             dups[c] = sorted(i for i in range(len(variants[c])) if rng.random() < 0.2 and "alts" not in variants[c][i])
     return {"kind": "c17", "dups": dups, "contigs": contigs, "variants": variants, "samples": samples, "haps": haps, "alns": alns,
-            "read_groups": read_groups, "history": hist, "gaps": gaps, "bx_cutoff": bx_cutoff}
+            "read_groups": read_groups, "history": hist, "gaps": gaps, "bx_cutoff": bx_cutoff, "extra": extra, "hap_bias": hap_bias}
+
+
+SPECIAL_ALTS = ("<DEL>", "<DEL>", "<INS>", "<DUP>", "<INV>", "<*>", "<NON_REF>", None)
+
+
+def gen_extra(rng, samples, contigs, variants):
+    """records the readers skip or treat specially, written into EVERY VCF of the history next to the variants (they are
+    not variants of the case: no read shows them): symbolic ALT alleles (kept in the variant table, never typed in a read)
+    and records without ALT (skipped by the reader), before / between / after the variants, with calls 1/1, 0/0, 0/1, ./.
+    {chrom: [{"pos", "ref", "alts", "gt": {sample: GT text}}]}"""
+    extra = {}
+    for c, seq in contigs.items():
+        taken = sorted(v["pos"] for v in variants[c])
+        out = []
+        for _ in range(rng.choice([1, 1, 2, 3, 4])):
+            where = rng.choice(["before", "between", "between", "after", "any"])
+            cand = [p for p in range(1, len(seq) - 1) if all(abs(p - q) >= 3 for q in taken)]
+            if taken and where == "before":
+                cand = [p for p in cand if p < taken[0]] or cand
+            elif taken and where == "after":
+                cand = [p for p in cand if p > taken[-1]] or cand
+            elif taken and where == "between":
+                cand = [p for p in cand if taken[0] < p < taken[-1]] or cand
+            if not cand:
+                continue
+            # half of them right in front of a variant (3..8 bases): the next record of the file is a variant
+            nxt = [p for p in cand if any(3 <= q - p <= 8 for q in taken)]
+            p = rng.choice(nxt if nxt and rng.random() < 0.5 else cand)
+            alt = rng.choice(SPECIAL_ALTS)
+            gts = ["0/0", "./."] if alt is None else ["1/1", "1/1", "0/0", "0/1", "./."]
+            out.append({"pos": p, "ref": seq[p], "alts": [alt] if alt else [], "gt": {s: rng.choice(gts) for s in samples}})
+            taken = sorted(taken + [p])
+        extra[c] = sorted(out, key=lambda e: e["pos"])
+    return extra
 
 
 GT_FORMS = ("ps", "nokey", "dot", "zero")
@@ -263,12 +301,20 @@ def write_vcf(case, path, calls, forms=False):
                     k["GT"] = f"{b}{sep}{a}" if sep == "|" else k["GT"]
                     dc.append(k)
                 recs.append({"chrom": c, "pos": v["pos"], "ref": v["ref"], "alts": [alt2], "format": fmt, "calls": dc})
+    for c in case["contigs"]:
+        for e in (case.get("extra") or {}).get(c, []):
+            recs.append({"chrom": c, "pos": e["pos"], "ref": e["ref"], "alts": e["alts"], "format": ["GT"],
+                         "calls": [{"GT": e["gt"][s]} for s in case["samples"]]})
+    order = list(case["contigs"])
+    recs.sort(key=lambda r: (order.index(r["chrom"]), r["pos"]))       # stable: a second record stays behind the first
     defs = {"PS": PS_FMT}
     if forms and hist["u_enc"] == "hp":
         defs = {"PS": PS_FMT, "HP": HP_FMT}
     elif forms and hist.get("no_ps_header"):
         defs = {}
-    sim.write_vcf(path, case["contigs"], case["samples"], recs, fmt_defs=defs)
+    # a VCF with symbolic alleles declares INFO/END (pysam cannot write such a record otherwise: `unphase` would fail)
+    info = {"END": '##INFO=<ID=END,Number=1,Type=Integer,Description="End position of the variant">'} if case.get("extra") else None
+    sim.write_vcf(path, case["contigs"], case["samples"], recs, fmt_defs=defs, info_defs=info)
 
 
 def unphased_call(case, s, c, i):
